@@ -59,68 +59,11 @@ func coveringMatrix(t int) []confDim {
 
 // ---------------------------------------------------------------- stop moments
 
-// moment is one enumerated stop moment: the point (file + operand text, never
-// a line number) whose N-th hit requests the stop, or a moment owned by the
-// parent (mid-fetch: the origin holds a response open).
-type moment struct {
-	Name    string   `json:"name"`
-	Match   []string `json:"match,omitempty"`
-	Pre     []string `json:"pre,omitempty"`      // actions before the SIGTERM (pause)
-	Early   bool     `json:"early,omitempty"`    // hit on the main goroutine inside controler.Start(): SIGTERM without waiting for WatchSignals
-	Hold    string   `json:"hold,omitempty"`     // "release": origin holds /a1.png, SIGTERM, release once the stop has begun; "stall": never released
-	PauseAt []string `json:"pause_at,omitempty"` // a first trigger that pauses the pipeline (for the acknowledged-pause moment)
-	Quick   bool     `json:"quick,omitempty"`
-	Needs   string   `json:"needs,omitempty"` // configuration the point exists in: "seencheck", "sync"
-}
+type moment = e2e.Moment
 
-var moments = []moment{
-	// idle, before the first fetch
-	{Name: "idle: preprocessor worker waits for its first seed", Match: []string{"preprocessor/preprocessor.go", "recv p.inputCh"}, Quick: true},
-	{Name: "lq consumer fetches fresh URLs (claim transaction begins)", Match: []string{"source/lq/client.go", "call qtx.GetFreshURLs"}},
-	{Name: "lq claims a URL", Match: []string{"source/lq/client.go", "call qtx.ClaimThisURL"}},
-	{Name: "lq commits a transaction", Match: []string{"source/lq/client.go", "call tx.Commit"}, Quick: true},
-	{Name: "lq consumer hands a claimed URL to the sender", Match: []string{"source/lq/consumer.go", "send urlBuffer"}},
-	{Name: "reactor insert accepted (token taken)", Match: []string{"reactor/reactor.go", "Map.LoadOrStore"}},
-	{Name: "reactor forwards a seed to the preprocessor", Match: []string{"reactor/reactor.go", "send r.output"}},
-	// preprocessor
-	{Name: "preprocessor seenchecks an item", Match: []string{"seencheck/seencheck.go", "call globalSeencheck.DB.Get"}, Needs: "seencheck"},
-	{Name: "preprocessor forwards the seed", Match: []string{"preprocessor/preprocessor.go", "send p.outputCh"}},
-	// archiver
-	{Name: "archiver takes an item (before client.Do)", Match: []string{"archiver/archiver.go", "send guard"}, Quick: true},
-	{Name: "archiver item goroutine starts", Match: []string{"archiver/archiver.go", "go func"}},
-	{Name: "mid-fetch: the origin holds the response open, released after the stop has begun", Hold: "release", Quick: true},
-	{Name: "body processed, waiting for the WARC writer's feedback", Match: []string{"archiver/archiver.go", "recv feedbackChan"}, Needs: "sync", Quick: true},
-	{Name: "archiver item done (after client.Do and the WARC write)", Match: []string{"archiver/archiver.go", "recv guard"}},
-	{Name: "archiver forwards the seed", Match: []string{"archiver/archiver.go", "send a.outputCh"}},
-	// postprocessor, finisher, feedback
-	{Name: "postprocessor forwards an outlink or the seed", Match: []string{"postprocessor/postprocessor.go", "send p.outputCh"}},
-	{Name: "finisher hands an outlink to the source", Match: []string{"finisher/finisher.go", "send f.sourceProducedCh"}},
-	{Name: "feedback: seed with fresh children goes back to the reactor", Match: []string{"reactor/reactor.go", "Map.Swap"}},
-	{Name: "finisher before MarkAsFinished", Match: []string{"reactor/reactor.go", "Map.LoadAndDelete"}},
-	{Name: "finisher after MarkAsFinished, before the finish message", Match: []string{"finisher/finisher.go", "send f.sourceFinishedCh"}, Quick: true},
-	{Name: "lq finisher dispatches a batch of finished seeds", Match: []string{"source/lq/finisher.go", "send senderSemaphore"}},
-	{Name: "lq deletes a finished URL", Match: []string{"source/lq/client.go", "call qtx.DeleteURL"}},
-	{Name: "lq producer adds the outlinks to the queue (after its 5 s ticker)", Match: []string{"source/lq/client.go", "call qtx.AddURL"}},
-	// paused
-	{Name: "paused while an item is about to be fetched, then stop", Match: []string{"archiver/archiver.go", "send guard"}, Pre: []string{"pause"}, Quick: true},
-	{Name: "paused while idle, then stop", Match: []string{"preprocessor/preprocessor.go", "recv p.inputCh"}, Pre: []string{"pause"}},
-	{Name: "a worker acknowledged the pause, then stop", Match: []string{"send controlChans.ResumeCh"}, PauseAt: []string{"archiver/archiver.go", "send guard"}},
-	// after the drain
-	{Name: "drained: every seed finished", Quick: true},
-	// a stalled server (thorough only): the response is never completed
-	{Name: "mid-fetch: the origin never completes the response", Hold: "stall"},
-	// before the CLI listens to signals (one configuration only)
-	{Name: "during start-up: SIGTERM before controler.WatchSignals() is reached", Match: []string{"finisher/finisher.go", "go globalFinisher.worker"}, Early: true},
-}
+var moments = e2e.StopMoments
 
-func momentByName(n string) *moment {
-	for i := range moments {
-		if moments[i].Name == n {
-			return &moments[i]
-		}
-	}
-	return nil
-}
+func momentByName(n string) *moment { return e2e.MomentByName(n) }
 
 // ---------------------------------------------------------------- cases
 
@@ -143,8 +86,9 @@ func applicable(m *moment, d confDim) bool {
 }
 
 const (
-	stallMoment   = "mid-fetch: the origin never completes the response"
-	startupMoment = "during start-up: SIGTERM before controler.WatchSignals() is reached"
+	stallMoment    = e2e.StallMoment
+	startupMoment  = e2e.StartupMoment
+	startupMoment2 = e2e.StartupMoment2
 )
 
 func cases(tier string) []caseSpec {
@@ -158,13 +102,13 @@ func cases(tier string) []caseSpec {
 				}
 			}
 		}
-		out = append(out, caseSpec{base, startupMoment, 1})
+		out = append(out, caseSpec{base, startupMoment, 1}, caseSpec{base, startupMoment2, 1})
 		return out
 	}
 	for _, d := range fullMatrix() {
 		for i := range moments {
 			m := &moments[i]
-			if m.Name == stallMoment || m.Name == startupMoment || !applicable(m, d) {
+			if m.Name == stallMoment || m.Name == startupMoment || m.Name == startupMoment2 || !applicable(m, d) {
 				continue
 			}
 			out = append(out, caseSpec{d, m.Name, 1})
@@ -179,7 +123,7 @@ func cases(tier string) []caseSpec {
 			out = append(out, caseSpec{d, m.Name, 2})
 		}
 	}
-	out = append(out, caseSpec{base, startupMoment, 1})
+	out = append(out, caseSpec{base, startupMoment, 1}, caseSpec{base, startupMoment2, 1})
 	for _, d := range []confDim{base, {Proxy: true, Async: true, Limiter: false, Workers: 2, Pool: 2, Seencheck: false}} {
 		out = append(out, caseSpec{d, stallMoment, 1})
 	}
@@ -213,21 +157,43 @@ func png(tag string, n int) []byte {
 	return b[:n]
 }
 
-func site(o *e2e.Origin, hold *e2e.Hold) (seeds []string, lqRows []e2e.LQRow, expectFinished int) {
+func site(o *e2e.Origin, hold *e2e.Hold, how string) (seeds []string, lqRows []e2e.LQRow, expectFinished int) {
 	html := [][2]string{{"Content-Type", "text/html; charset=utf-8"}}
 	img := [][2]string{{"Content-Type", "image/png"}}
 	o.Handle("/p1", e2e.Resp{Status: 200, Header: html, Entity: e2e.HTMLPage("p1", []string{"/a1.png", "/a2.png"}, []string{"/out1"})})
 	a1 := e2e.Resp{Status: 200, Header: img, Entity: png("a1", 5000), Chunked: true}
-	if hold != nil {
+	switch {
+	case hold == nil:
+		o.Handle("/a1.png", a1)
+	case how == "reset":
+		// first attempt: held before the status line, then reset; the retry gets the whole response
+		held := a1
+		held.Hold, held.HoldAt, held.AfterHold = hold, -1, "reset"
+		o.Handle("/a1.png", held, a1)
+	case how == "cut":
+		a1.Chunked = false
+		held := a1
+		held.Hold, held.HoldAt, held.AfterHold = hold, 2500, "close"
+		o.Handle("/a1.png", held, a1)
+	case how == "discard":
+		busy := e2e.Resp{Status: 429, Header: [][2]string{{"Content-Type", "text/plain"}, {"Retry-After", "1"}}, Entity: []byte("slow down\n")}
+		held := busy
+		held.Hold, held.HoldAt = hold, -1
+		o.Handle("/a1.png", held, busy)
+	default: // release, stall
 		a1.Hold, a1.HoldAt = hold, 1500
+		o.Handle("/a1.png", a1)
 	}
-	o.Handle("/a1.png", a1)
 	o.Handle("/a2.png", e2e.Resp{Status: 302, Header: [][2]string{{"Location", "/a3.png"}}, Entity: []byte("moved")})
 	o.Handle("/a3.png", e2e.Resp{Status: 200, Header: img, Entity: png("a3", 3000)})
 	o.Handle("/out1", e2e.Resp{Status: 200, Header: html, Entity: e2e.HTMLPage("out1", nil, nil)})
 	o.Handle("/q1", e2e.Resp{Status: 200, Header: html, Entity: e2e.HTMLPage("q1", []string{"/b1.png"}, nil)})
 	o.Handle("/b1.png", e2e.Resp{Status: 200, Header: img, Entity: png("b1", 70000)})
-	return []string{o.URL("/p1")}, []e2e.LQRow{{ID: "row-q1", Value: o.URL("/q1")}}, 2
+	// Both seeds come from the pre-loaded local queue: controler.Start() then returns at once and
+	// controler.WatchSignals() listens before any work is done. (With a command-line seed and one worker,
+	// Start() blocks in reactor.ReceiveInsert while a queue seed holds the only token and the CLI does not
+	// listen to signals during that time: that window is judged by the two start-up moments.)
+	return nil, []e2e.LQRow{{ID: "row-p1", Value: o.URL("/p1")}, {ID: "row-q1", Value: o.URL("/q1")}}, 2
 }
 
 func waitEvent(dir, what string, d time.Duration) bool {
@@ -257,7 +223,10 @@ func runCase(cs caseSpec, profile bool) (v verdict) {
 		hold = e2e.NewHold()
 		defer hold.Release()
 	}
-	seeds, rows, expect := site(o, hold)
+	seeds, rows, expect := site(o, hold, m.Hold)
+	if m.Name == startupMoment2 {
+		seeds, rows, expect = []string{o.URL("/p1"), o.URL("/q1")}, nil, 2
+	}
 	conf := e2e.Conf{Job: "c03b", Workers: cs.Conf.Workers, MaxConcurrentAssets: cs.Conf.Workers, MaxHops: 1, MaxRetry: 1, WARCPoolSize: cs.Conf.Pool,
 		WARCWriteAsync: cs.Conf.Async, DisableRateLimit: !cs.Conf.Limiter, DisableSeencheck: !cs.Conf.Seencheck, InputSeeds: seeds}
 	if cs.Conf.Proxy {
@@ -293,8 +262,11 @@ func runCase(cs caseSpec, profile bool) (v verdict) {
 	if m.Match != nil {
 		spec.Triggers = append(spec.Triggers, e2e.Trigger{Name: "stop", Match: m.Match, N: cs.Occ, Do: append(append([]string{}, m.Pre...), stop)})
 	}
-	if m.Name == "drained: every seed finished" {
+	if m.Name == e2e.DrainedMoment {
 		spec.FallbackMS = 300
+	}
+	if m.Slow {
+		spec.FallbackMS = 9000
 	}
 	hooks := e2e.RunHooks{}
 	sentByParent := make(chan bool, 1)
@@ -310,7 +282,7 @@ func runCase(cs caseSpec, profile bool) (v verdict) {
 				waitEvent(dir, "signals-watched", 10*time.Second)
 				signal(syscall.SIGTERM)
 				sentByParent <- true
-				if m.Hold == "release" {
+				if m.Hold != "stall" {
 					waitEvent(dir, "stop-begun", 10*time.Second)
 					time.Sleep(300 * time.Millisecond) // the stop sequence reaches archiver.Stop and waits there for the fetch
 					hold.Release()
@@ -372,11 +344,15 @@ func judge(v *verdict, cs caseSpec, m *moment, res *e2e.ChildResult, dir, job st
 	if res.ExitCode != 0 {
 		if res.Signal == "terminated" && m.Early {
 			v.Sig = "sigterm-before-signal-handler"
-			v.Detail = "SIGTERM while controler.Start() is still running (the stages are being started, the WARC writer already has its file open): controler.WatchSignals() has not called signal.Notify yet, the default action kills the process: exit by signal 15, " + leftovers(dir, job)
+			v.Detail = "SIGTERM while controler.Start() is still running (" + map[bool]string{true: "it is blocked in reactor.ReceiveInsert for the second command-line seed until the first seed is finished", false: "the stages are being started, the WARC writer already has its file open"}[m.Name == startupMoment2] + "): controler.WatchSignals() has not called signal.Notify yet, the default action kills the process: exit by signal 15, " + leftovers(dir, job)
 			return
 		}
 		if res.Signal == "killed" {
 			v.EngineNote = "the child was killed by SIGKILL, which neither Zeno nor the harness sends in this check"
+			return
+		}
+		if res.ExitCode == e2e.ExitEngine || res.ExitCode == 3 {
+			v.EngineNote = fmt.Sprintf("the child gave up (exit %d): %v", res.ExitCode, res.Events)
 			return
 		}
 		v.Sig = fmt.Sprintf("stop-exit-status:%d%s:%s", res.ExitCode, res.Signal, where)
@@ -420,6 +396,10 @@ func momentClass(m *moment) string {
 	switch {
 	case m.Hold == "stall":
 		return "mid-fetch-stalled-server"
+	case m.Hold == "reset" || m.Hold == "cut":
+		return "mid-fetch-connection-fails"
+	case m.Hold == "discard":
+		return "mid-fetch-discarded-response"
 	case m.Hold != "":
 		return "mid-fetch"
 	case len(m.Pre) > 0 || m.PauseAt != nil:
@@ -485,7 +465,7 @@ func main() {
 		return
 	}
 	if _, ok := a.Extra["profile"]; ok {
-		v := runCase(caseSpec{confDim{Limiter: true, Workers: 1, Pool: 1, Seencheck: true}, "drained: every seed finished", 1}, true)
+		v := runCase(caseSpec{confDim{Limiter: true, Workers: 1, Pool: 1, Seencheck: true}, e2e.DrainedMoment, 1}, true)
 		fmt.Printf("%+v\n", v)
 		return
 	}
@@ -531,17 +511,14 @@ func main() {
 					again++
 				}
 			}
-			if again < 2 {
+			if again == 0 {
 				hangDismissed++
 				notes++
-				fmt.Printf("note: %s: hung once under load, %d of 2 re-runs alone hung; not believed\n", v.Case, again)
-				w := runCase(cs[j], false)
-				if w.Hang {
-					hkit.EngineError("%s: hangs intermittently (1 + %d of 3 runs)", v.Case, again+1)
-				}
-				*v = w
+				fmt.Printf("note: %s: ran into the watchdog once under load, neither of 2 re-runs alone did; not believed\n", v.Case)
+				*v = runCase(cs[j], false)
 			} else {
 				hangConfirmed++
+				v.Detail = fmt.Sprintf("[hung in %d of 3 runs, %d of them alone] %s", again+1, again, v.Detail)
 			}
 		}
 		if v.Fired {
@@ -567,7 +544,7 @@ func main() {
 		"evaluations": len(cs), "distinct_nontrivial": len(distinct),
 		"rule":    "one evaluation = one child process (configuration x stop moment x occurrence) judged by the oracle; non-trivial = the SIGTERM was sent at the enumerated moment (not the fallback after the drain); distinct = distinct (configuration, moment, occurrence)",
 		"samples": samples, "exhaustive": true, "moments": len(perMoment), "cases_per_moment": perMoment, "fallback_after_drain": fallback,
-		"hangs_confirmed_by_two_reruns": hangConfirmed, "hangs_not_reproduced": hangDismissed,
+		"hangs_reproduced_alone": hangConfirmed, "hangs_not_reproduced": hangDismissed,
 		"matrix":      map[string]any{"quick": "3-way covering array of {proxy, async, limiter, workers, pool, seencheck}", "thorough": "full product (64) for the first occurrence, pairwise covering array for the second"}[a.Tier],
 		"explanation": "part B: the child runs controler.Start(); controler.WatchSignals() as cmd/get_url.go; a free-mode trigger sends SIGTERM to the process itself at the n-th hit of an instrumented progress point (or the parent sends it while the origin holds a response open); oracle: exit status 0 within 60 s, no panic text on stderr, no *.open file under jobs/<job>/warcs, every file there parses into complete gzip members and WARC records with an independent reader",
 	}, []string{
